@@ -42,13 +42,14 @@ def cases(ctx):
         r = ctx.rng("C17g3", j)
         single = r.random() < 0.5
         c = gen.rand_circuit(r, n_in=r.randint(2, 6), n_gates=r.randint(3, 14), max_fanin=2, consts=0.15 if r.random() < 0.3 else 0.0,
-                             extra_out=0.0 if single else 0.25, out_is_input=0.0)
+                             extra_out=0.0 if single else 0.25, out_is_input=0.0 if single else 0.3, loaded_in_out=0.0 if single else 0.25)
         if single:
             outs = sorted(c.outputs())
             keep = outs[-1]
             for o in outs[:-1]:
                 c.set_output(o, False)
-            c.remove_unloaded(inputs=True)
+            # half of the time an input outside the cone of the output stays (unloaded inputs are lint-clean)
+            c.remove_unloaded(inputs=(j % 2 == 0))
         p = proj(c)
         if not p["n"] or not any(p["out"]):
             continue
